@@ -137,6 +137,7 @@ pub fn run(ctx: &Ctx) {
         }
     });
     run_noncanonical(ctx);
+    run_name_variants(ctx);
 }
 
 fn run_noncanonical(ctx: &Ctx) {
@@ -156,7 +157,26 @@ fn run_noncanonical(ctx: &Ctx) {
     ctx.space("non-canonical in-memory values: NSEC records whose windows are held out of order, next names under .local and elsewhere, owners shared with the question", ps.len() as u64, "complete");
 }
 
+/// The C04 name-variant cases judged for C03: the compressed and the plain serialisation of the
+/// same packet decode to the same names and records whatever API path a name came from.
+pub fn run_name_variants(ctx: &Ctx) {
+    let cases = super::c04::name_variant_cases();
+    par_shards(ctx, &cases, |(text, path, rtype), t: &mut Tally| {
+        t.evals += 1;
+        t.nontrivial += 1;
+        let f: Vec<Finding> = super::c04::check_name_variants(text, *path, *rtype).into_iter().map(|f| Finding { sig: f.sig.replacen("C04|", "C03|", 1), ..f }).collect();
+        t.outcome(if f.is_empty() { "same" } else { "differs" });
+        if !f.is_empty() {
+            ctx.violations(f);
+        }
+    });
+    ctx.space("names obtained through different API paths (new, new_unchecked, try_from, parsed, without(suffix), owned copies) x 7 names x 6 name-bearing types: plain and compressed output decode to the same packet", cases.len() as u64, "complete");
+}
+
 pub fn replay(case: &Value) -> Vec<Finding> {
+    if case["kind"].as_str() == Some("name-variant") {
+        return super::c04::check_name_variants(case["text"].as_str().unwrap_or("a"), case["path"].as_u64().unwrap_or(0) as u8, case["rtype"].as_u64().unwrap_or(12) as u16).into_iter().map(|f| Finding { sig: f.sig.replacen("C04|", "C03|", 1), ..f }).collect();
+    }
     match case_packet(case) {
         Some(p) => check_packet(&p, &|| case.clone()),
         None => vec![finding("C03|replay-unreadable", "case not understood".to_string(), case.clone())],
